@@ -279,7 +279,16 @@ def _get_input_data(ctx: Ctx, c: Collector) -> None:
         if d < 3:
             pr13.append(f"the persistent memory is merged in with {d} fresh level(s) out of the 3 that mosaik controls: merge_all stores missing sub-dicts by reference, so later "
                         "writes into the step inputs (buffered events, pulled values, an in-process simulator) modify the memory itself")
-    c.add("memory", GID, "persistent memory merged into the inputs (3 x merge_all, existing value wins)", VIOLATED if pr else DISCHARGED, "; ".join(pr), loc)
+    # a merge helper of another shape (a recursive helper with a depth argument, mergers built elsewhere) that is handed the
+    # inputs and the memory: what it does is not decided here -- no verdict instead of "not merged"
+    raw_s = ctx.raw(GID)        # before helper splicing: the calls as written
+    other_merge = [e for e in raw_s.of_kind("call") if e.term[1][0] == "glob" and e.term[1][1] not in (MERGE_ALL, MERGE_EX)
+                   and any(T.contains((a,), pers) for a in e.term[2]) and len(e.term[2]) >= 2 and not any(x.term[1][0] == "glob" and x.term[1][1] in (MERGE_ALL, MERGE_EX) and T.contains((x.term,), pers) for x in raw_s.of_kind("call"))]
+    if not into and other_merge:
+        c.unk("memory", GID, "persistent memory merged into the inputs (3 x merge_all, existing value wins)",
+              f"the memory is handed to {T.show(other_merge[0].term[1])}, a merge helper whose effect is not understood", loc)
+    else:
+        c.add("memory", GID, "persistent memory merged into the inputs (3 x merge_all, existing value wins)", VIOLATED if pr else DISCHARGED, "; ".join(pr), loc)
     c.add("R13", GID, "no alias of persistent_inputs reachable from the step inputs", VIOLATED if pr13 else DISCHARGED, "; ".join(pr13), loc)
     # (c) write-back
     pr = []
@@ -296,7 +305,11 @@ def _get_input_data(ctx: Ctx, c: Collector) -> None:
             pr.append("the write-back keeps the old value instead of taking the new one")
         if into and e.idx < into[0][0].idx:
             pr.append("the write-back precedes reading the memory")
-    c.add("writeback", GID, "write-back only into existing keys (3 x merge_existing, new value wins)", VIOLATED if pr else DISCHARGED, "; ".join(pr), loc)
+    if not back and other_merge and any(T.strip(e.term[2][0]) == pers for e in other_merge if e.term[2]):
+        c.unk("writeback", GID, "write-back only into existing keys (3 x merge_existing, new value wins)",
+              "the memory is updated by a merge helper whose effect is not understood", loc)
+    else:
+        c.add("writeback", GID, "write-back only into existing keys (3 x merge_existing, new value wins)", VIOLATED if pr else DISCHARGED, "; ".join(pr), loc)
     # (d) buffer and cache are merged after the memory and before the write-back
     gi = [e for e in s.of_kind("call") if e.term[1] == ("attr", ("attr", sim, "timed_input_buffer"), "get_input")]
     pulls = [e for e in s.of_kind("call") if e.term[1][0] == "attr" and e.term[1][2] == "get_output_for"]
